@@ -94,9 +94,22 @@ fn main() {
     let mut seed: u64 = std::env::var("VERIF_SEED").ok().and_then(|s| s.trim().parse::<u64>().ok()).unwrap_or(1);
     let mut replay_sig = None;
     if let Some(i) = args.iter().position(|a| a == "--replay") {
-        let path = args.get(i + 1).expect("--replay FILE");
-        let text = std::fs::read_to_string(path).expect("cannot read replay file");
-        let v: serde_json::Value = serde_json::from_str(&text).expect("replay file is not JSON");
+        let fail = |m: String| -> ! {
+            println!("INCONCLUSIVE: {}", m);
+            std::process::exit(2)
+        };
+        let path = match args.get(i + 1) {
+            Some(p) => p,
+            None => fail("--replay needs a file".into()),
+        };
+        let text = match std::fs::read_to_string(path) {
+            Ok(t) => t,
+            Err(e) => fail(format!("cannot read replay file {}: {}", path, e)),
+        };
+        let v: serde_json::Value = match serde_json::from_str(&text) {
+            Ok(v) => v,
+            Err(e) => fail(format!("replay file {} is not JSON: {}", path, e)),
+        };
         seed = v["seed"].as_u64().unwrap_or(seed);
         if v["tier"].as_str() == Some("thorough") {
             tier = Tier::Thorough;
@@ -114,31 +127,41 @@ fn main() {
         std::process::exit(ctx.finish());
     }
 
-    match prop.as_str() {
-        "C01" => c01::run(&ctx),
-        "C02" => c02::run(&ctx),
-        "C03" => c03::run(&ctx),
-        "C04" => c04::run(&ctx),
-        "C05" => c05::run(&ctx),
-        "C06" => c06::run(&ctx),
-        "C07" => c07::run(&ctx),
-        "C08" => c08::run(&ctx),
-        "C09" => c09::run(&ctx),
-        "C10" => c10::run(&ctx),
-        "C11" => c11::run(&ctx),
-        "C12" => c12::run(&ctx),
-        "C13" => c13::run(&ctx),
-        "C14" => c14::run(&ctx),
-        "C15" => c15::run(&ctx),
-        "C16" => c16::run(&ctx),
-        "C17" => c17::run(&ctx),
-        "C18" => c18::run(&ctx),
-        "C19" => c19::run(&ctx),
-        "C20" => c20::run(&ctx),
+    // a bug in a monitor must never look like a verdict: a panic outside the guarded calls is reported
+    // as inconclusive, with its message
+    let body = std::panic::catch_unwind(std::panic::AssertUnwindSafe(|| run_property(&prop, &ctx)));
+    if let Err(e) = body {
+        let msg = e.downcast_ref::<&str>().map(|s| s.to_string()).or_else(|| e.downcast_ref::<String>().cloned()).unwrap_or_else(|| "<non-string panic>".into());
+        ctx.inconclusive(&format!("the monitor itself panicked: {}", msg));
+    }
+    std::process::exit(ctx.finish());
+}
+
+fn run_property(prop: &str, ctx: &Ctx) {
+    match prop {
+        "C01" => c01::run(ctx),
+        "C02" => c02::run(ctx),
+        "C03" => c03::run(ctx),
+        "C04" => c04::run(ctx),
+        "C05" => c05::run(ctx),
+        "C06" => c06::run(ctx),
+        "C07" => c07::run(ctx),
+        "C08" => c08::run(ctx),
+        "C09" => c09::run(ctx),
+        "C10" => c10::run(ctx),
+        "C11" => c11::run(ctx),
+        "C12" => c12::run(ctx),
+        "C13" => c13::run(ctx),
+        "C14" => c14::run(ctx),
+        "C15" => c15::run(ctx),
+        "C16" => c16::run(ctx),
+        "C17" => c17::run(ctx),
+        "C18" => c18::run(ctx),
+        "C19" => c19::run(ctx),
+        "C20" => c20::run(ctx),
         _ => {
             eprintln!("kmon: unknown property {}", prop);
             std::process::exit(2);
         }
     }
-    std::process::exit(ctx.finish());
 }
